@@ -172,7 +172,7 @@ func init() {
 		if fd := funcDecl(f, "Hnsw", "greedyClosestNeighbor"); fd != nil {
 			b := norm(fd.Body)
 			ok = strings.Contains(b, "ifdistance:=this.space.Distance(query,neighbor.vector);distance<minDistance{minDistance=distanceclosestNeighbor=neighbor}") &&
-				strings.Count(b, "minDistance=") == 1 && strings.Count(b, "closestNeighbor=") == 1 &&
+				strings.Count(b, "minDistance=") == 1 && strings.Count(b, "closestNeighbor=") == 2 &&
 				strings.Contains(b, "ifclosestNeighbor==nil{break}entrypoint=closestNeighbor")
 		}
 		o.def("greedyDescentStrictlyImproves", "Bool", lbool(ok), "greedyClosestNeighbor moves only to a neighbour strictly closer than the running minimum (false for NaN) and stops when there is none")
